@@ -2,7 +2,8 @@
 
 Cases are YAML documents: generated well-formed definitions (the rich generator of sysisa, already known to be usable by
 the C10/C13 ties) and single-fault corruptions of them from a fixed catalogue.  The harness abstracts each document to the
-facts the model's `validate` looks at (`abstract`), the model decides accept / reject, and the implementation is asked to
+facts the model's `validate` looks at -- no longer: the loaded document is rendered as a tree and the model extracts
+those facts itself (ConfigTree.abstract_doc) --, the model decides accept / reject, and the implementation is asked to
 compile a one-line source file with the definition (in process, and for a share of the cases through the real command
 line, whose exit status is what the property names as the observation)."""
 import copy
@@ -114,58 +115,23 @@ def all_variant_dicts(doc):
         yield from ml
 
 
-def abstract(doc):
-    g = doc.get('general') or {}
-    a = {'general': 'general' in doc, 'instructions': 'instructions' in doc, 'operand_sets': 'operand_sets' in doc,
-         'mnemonics': list(doc.get('instructions') or {}), 'macros': list(doc.get('macros') or {}),
-         'registers': list(g.get('registers') or []), 'set_names': list(doc.get('operand_sets') or {}), 'variants': []}
-
-    def variant(v, needs):
-        ops = v.get('operands')
-        d = {'needs': needs, 'has_bc': 'bytecode' in v, 'has_ops': 'operands' in v, 'count': None, 'sets': None, 'lens': []}
-        if ops is not None:
-            d['count'] = ops.get('count')
-            if 'operand_sets' in ops:
-                d['sets'] = list(ops['operand_sets']['list'])
-            d['lens'] = [len(sc.get('list') or {}) for sc in (ops.get('specific_operands') or {}).values()]
-        return d
-    for ic in (doc.get('instructions') or {}).values():
-        vs = instr_variants(ic)
-        if not vs:
-            a['variants'].append({'needs': True, 'has_bc': False, 'has_ops': False, 'count': None, 'sets': None, 'lens': []})
-        a['variants'] += [variant(v, True) for v in vs]
-    for ml in (doc.get('macros') or {}).values():
-        a['variants'] += [variant(v, False) for v in ml]
-    a['reg_operands'] = [oc.get('register') for oc in walk_operand_configs(doc) if oc.get('type') in REG_TYPES]
-    a['ranges'] = [(oc['bytecode']['min'], oc['bytecode']['max']) for oc in walk_operand_configs(doc) if oc.get('type') == 'numeric_bytecode']
-    a['addr_bits'] = g.get('address_size', 16)
-    a['origin'] = g.get('origin', 0)
-    a['zones'] = [(z['name'], z['start'], z['end']) for z in ((doc.get('predefined') or {}).get('memory_zones') or [])]
-    a['min_version'] = g.get('min_version')
-    return a
-
-
-def cfg_term(a):
-    def sl(xs):
-        return '[' + '; '.join(C.coq_string_codes(x) for x in xs) + ']'
-
-    def vt(v):
-        sets = 'None' if v['sets'] is None else f'(Some {sl(v["sets"])})'
-        cnt = 'None' if v['count'] is None else f'(Some {C.zlit(v["count"])})'
-        return (f'{{| vv_needs_bytecode := {C.coq_bool(v["needs"])}; vv_has_bytecode := {C.coq_bool(v["has_bc"])}; '
-                f'vv_has_operands := {C.coq_bool(v["has_ops"])}; vv_count := {cnt}; vv_sets := {sets}; '
-                f'vv_specific_lens := {C.zlist(v["lens"])} |}}')
-    # the version text goes to the model as written; Config.parse_version reads it
-    mv = 'min_version_of_text ' + ('None' if a['min_version'] is None else f'(Some {C.coq_string_codes(str(a["min_version"]))})')
-    mv = '(' + mv + ')'
-    zones = '[' + '; '.join(f'({C.coq_string_codes(n)}, {C.zlit(s)}, {C.zlit(e)})' for n, s, e in a['zones']) + ']'
-    ranges = '[' + '; '.join(f'({C.zlit(lo)}, {C.zlit(hi)})' for lo, hi in a['ranges']) + ']'
-    return (f'{{| vc_general := {C.coq_bool(a["general"])}; vc_instructions := {C.coq_bool(a["instructions"])}; '
-            f'vc_operand_sets := {C.coq_bool(a["operand_sets"])}; vc_keywords := KEYWORDS;\n'
-            f'   vc_mnemonics := {sl(a["mnemonics"])}; vc_macros := {sl(a["macros"])}; vc_registers := {sl(a["registers"])}; '
-            f'vc_set_names := {sl(a["set_names"])};\n   vc_variants := [' + ';\n     '.join(vt(v) for v in a['variants']) + '];\n'
-            f'   vc_reg_operands := {sl(a["reg_operands"])}; vc_ranges := {ranges}; vc_addr_bits := {a["addr_bits"]}; '
-            f'vc_zones := {zones}; vc_origin := {C.zlit(a["origin"])}; vc_min_version := {mv} |}}')
+def tree_term(x):
+    """the loaded YAML document as a Coq term of type ConfigTree.yv (nothing is interpreted here)"""
+    if x is None:
+        return 'YNull'
+    if isinstance(x, bool):
+        return f'(YBool {C.coq_bool(x)})'
+    if isinstance(x, int):
+        return f'(YInt {C.zlit(x)})'
+    if isinstance(x, float):
+        return f'(YStr {C.coq_string_codes(str(x))})'
+    if isinstance(x, str):
+        return f'(YStr {C.coq_string_codes(x)})'
+    if isinstance(x, (list, tuple)):
+        return '(YList [' + '; '.join(tree_term(v) for v in x) + '])'
+    if isinstance(x, dict):
+        return '(YMap [' + '; '.join(f'({C.coq_string_codes(str(k))}, {tree_term(v)})' for k, v in x.items()) + '])'
+    raise ValueError(type(x))
 
 
 # ------------------------------------------------------------------------------------------------ the fault catalogue
@@ -461,9 +427,16 @@ def gen_validate_cases(rng, tier):
     return out
 
 
+def _as_loaded(doc):
+    """what yaml.safe_load makes of the file the implementation is given (so that the model sees what the loader sees)"""
+    import yaml
+    return yaml.safe_load(yaml.safe_dump(doc, default_flow_style=False, sort_keys=False))
+
+
 def validate_tie():
-    return Tie(name='validate', imports=['Base', 'Config'], run_def='fun c => Some (run_validate c)', eqb='obs_bool_eqb',
-               gen=gen_validate_cases, impl=impl_compile, case_term=lambda c: cfg_term(abstract(c['doc'])), obs_term=_obs,
+    # the model reads the document itself (ConfigTree.abstract_doc); the harness only renders the loaded YAML as a tree
+    return Tie(name='validate', imports=['Base', 'Config', 'ConfigTree'], run_def='fun d => Some (run_validate_doc d)', eqb='obs_bool_eqb',
+               gen=gen_validate_cases, impl=impl_compile, case_term=lambda c: tree_term(_as_loaded(c['doc'])), obs_term=_obs,
                nontrivial=lambda c: True, classify=lambda c: c['fault'] or 'well-formed', shard=40, timeout=180)
 
 
